@@ -354,12 +354,14 @@ def perm_of(items: list, salt: int) -> list:
 
 def seed_edges(spec: list) -> List[dict]:
     """canonical edge rows (snapshot form) of a `seed` op: [a, b, 'f:w', concept, coact, lst]."""
-    rows = []
+    # the store keeps edges in a dict keyed by the key STRING: two different pairs whose strings coincide (ids that
+    # contain the arrow, e.g. ('b→c','a') and ('c','a→b')) are one record there — first position, last value
+    rows: Dict[str, dict] = {}
     for a, b, w, concept, coact, lst in spec:
         src, dst = (a, b) if a <= b else (b, a)
-        rows.append({"k": src + ARROW + dst, "src": src, "dst": dst, "w": F(_num(w)), "concept": bool(concept),
-                     "coact": coact, "lst": lst})
-    return rows
+        rows[src + ARROW + dst] = {"k": src + ARROW + dst, "src": src, "dst": dst, "w": F(_num(w)), "concept": bool(concept),
+                                   "coact": coact, "lst": lst}
+    return list(rows.values())
 
 
 def install_seed(state: Any, spec: list) -> None:
